@@ -11,6 +11,7 @@ from harness.common import struct_hash
 from harness.ns import QNAMES
 
 ID = "C06"
+LEVEL_TEXT = ("Lean 4 theorems about the executable model of the code (all inputs, by induction), tied to /repo by tables regenerated on every run (decide) and by differential execution of model and implementation; the property oracle is also run on the implementation for every case. The substitution law (fill_inline) is proved for every document of the model; the clause 'executing with the collected values gives the same rows' is executed on SQLite for the qmark / numeric / named styles, not proved.")
 LEAN_MODULES = ["Pypika.Props.C06"]
 THEOREMS = ["Pypika.C06.flattenP_spec", "Pypika.C06.count_agree", "Pypika.C06.fill_inline",
             "Pypika.C06.inline_iff_not_collected", "Pypika.C06.flatten_uncollect", "Pypika.C06.placeholder_inj",
